@@ -1,6 +1,7 @@
 import Fosite.Driver.Pure
 import Fosite.Driver.Hist
 import Fosite.Spec.Monitor
+import Fosite.Spec.MonitorTx
 import Fosite.Driver.LockReport
 open Fosite.Driver
 
@@ -28,8 +29,15 @@ partial def histLoop (h : IO.FS.Stream) (out : IO.FS.Stream) (st : HistState) : 
     out.putStrLn o
     histLoop h out st'
 
+/-- what the monitor carries besides the bookkeeping: store dump of the previous observation, whether the
+    store is transactional (cfg tx=1), whether the history has seen an injected fault -/
+structure MonAux where
+  prevDump : Option String := none
+  tx : Bool := false
+  seen : List String := []        -- every record name that has been in a dump of this history
+
 /-- monitor: reads alternating (operation, observation) lines; prints the hits for each pair -/
-partial def monitorLoop (h : IO.FS.Stream) (out : IO.FS.Stream) (b : Fosite.Spec.Monitor.Book) : IO Unit := do
+partial def monitorLoop (h : IO.FS.Stream) (out : IO.FS.Stream) (b : Fosite.Spec.Monitor.Book) (a : MonAux) : IO Unit := do
   let l1 ← h.getLine
   if l1.isEmpty then return ()
   let l2 ← h.getLine
@@ -37,13 +45,22 @@ partial def monitorLoop (h : IO.FS.Stream) (out : IO.FS.Stream) (b : Fosite.Spec
   let obs := chomp l2
   if op == "reset" then
     out.putStrLn ""
-    monitorLoop h out {}
+    monitorLoop h out {} {}
   else
     let f := fields op
     let o := Fosite.Spec.Monitor.outSeg obs
-    let hits := Fosite.Spec.Monitor.check b f o ++ Fosite.Spec.Monitor.taintHits obs
+    let a := match f with
+      | "cfg" :: rest => { a with tx := kv rest "tx" == "1" }
+      | _ => a
+    let hits0 := Fosite.Spec.Monitor.check b f o ++ Fosite.Spec.Monitor.taintHits obs
+    let dump := (Fosite.Spec.MonitorTx.segs obs).getD 2 ""
+    let back := match a.prevDump with
+      | some d => Fosite.Spec.MonitorTx.resurrected d dump a.seen
+      | none => []
+    let hits := hits0 ++ Fosite.Spec.MonitorTx.txHits a.tx a.prevDump obs ++ back
     out.putStrLn (" ".intercalate hits)
-    monitorLoop h out (Fosite.Spec.Monitor.update b f o)
+    let seen' := (Fosite.Spec.MonitorTx.allNames dump).foldl (fun acc n => if acc.contains n then acc else n :: acc) a.seen
+    monitorLoop h out (Fosite.Spec.Monitor.update b f o) { a with prevDump := some dump, seen := seen' }
 
 def main (args : List String) : IO UInt32 := do
   let stdin ← IO.getStdin
@@ -52,6 +69,6 @@ def main (args : List String) : IO UInt32 := do
   | ["pure-model"] => pureLoop stdin stdout pureModel; return 0
   | ["pure-spec"] => pureLoop stdin stdout pureSpec; return 0
   | ["hist-model"] => histLoop stdin stdout {}; return 0
-  | ["monitor"] => monitorLoop stdin stdout {}; return 0
+  | ["monitor"] => monitorLoop stdin stdout {} {}; return 0
   | ["lock-report"] => Fosite.Driver.LockReport.lines.forM (fun l => stdout.putStrLn l); return 0
   | _ => IO.eprintln "usage: fzdriver (pure-model|pure-spec|hist-model)"; return 2
